@@ -9,7 +9,24 @@ var worldComponents = []string{
 }
 
 var props = map[string]propSpec{
-	"C01": {Engine: "world", Cover: []string{"C05|", "C13.A1", "C04.A3"}, QuickRuns: 1200, QuickSecs: 40, ThoroughS: 600, Components: worldComponents},
-	"C04": {Engine: "world", Cover: []string{"C05|", "C01|due"}, QuickRuns: 1200, QuickSecs: 40, ThoroughS: 600, Components: worldComponents},
-	"C05": {Engine: "world", Cover: []string{"C05|"}, QuickRuns: 1200, QuickSecs: 40, ThoroughS: 600, Components: worldComponents},
+	"C01": {Engine: "world", Cover: []string{"C05|", "C13.A1", "C04.A3"}, QuickRuns: 1200, QuickSecs: 40, ThoroughS: 600, Components: worldComponents,
+		MinReach: []string{"cross_host_cookie_refused", "wrong_provider_refused", "lifetime_expired_refused", "skip_auth_arrival", "revalidation_refused"}},
+	"C02": {Engine: "world", Cover: []string{"C06.A", "C08.A2"}, QuickRuns: 1200, QuickSecs: 40, ThoroughS: 600, Components: worldComponents},
+	"C03": {Engine: "world", QuickRuns: 1200, QuickSecs: 40, ThoroughS: 600, Components: worldComponents},
+	"C04": {Engine: "world", Cover: []string{"C05|", "C01|due"}, QuickRuns: 1200, QuickSecs: 40, ThoroughS: 600, Components: worldComponents,
+		MinReach: []string{"lifetime_expired_refused", "revalidation_refused", "due_check_ok_refresh", "due_check_ok_validate"}},
+	"C05": {Engine: "world", Cover: []string{"C05|"}, QuickRuns: 1200, QuickSecs: 40, ThoroughS: 600, Components: worldComponents,
+		MinReach: []string{"grace_fallback_served", "grace_expired_refused", "metric_provider_error_fallback"}},
+	"C06": {Engine: "world", Cover: []string{"C11.A1"}, QuickRuns: 1200, QuickSecs: 40, ThoroughS: 600, Components: worldComponents,
+		MinReach: []string{"callback_variant_crossed", "callback_variant_state-equals-cookie", "callback_variant_replay", "proxy_session_issued"}},
+	"C07": {Engine: "world", QuickRuns: 1500, QuickSecs: 40, ThoroughS: 600, Components: worldComponents, MinReach: []string{"unsigned_redirect_refused", "auth_code_issued"}},
+	"C08": {Engine: "world", QuickRuns: 1500, QuickSecs: 40, ThoroughS: 600, Components: worldComponents, MinReach: []string{"backchannel_refused"}},
+	"C09": {Engine: "world", QuickRuns: 1200, QuickSecs: 40, ThoroughS: 600, Components: worldComponents, MinReach: []string{"auth_code_issued", "auth_session_created"}},
+	"C10": {Engine: "world", QuickRuns: 1500, QuickSecs: 40, ThoroughS: 600, Components: worldComponents, MinReach: []string{"auth_session_created"}},
+	"C11": {Engine: "world", Cover: []string{"C06.A"}, QuickRuns: 1200, QuickSecs: 40, ThoroughS: 600, Components: worldComponents},
+	"C12": {Engine: "world", QuickRuns: 1200, QuickSecs: 40, ThoroughS: 600, Components: worldComponents, MinReach: []string{"l5_tamper_judged"}},
+	"C13": {Engine: "world", Cover: []string{"C01.A2"}, QuickRuns: 1200, QuickSecs: 40, ThoroughS: 600, Components: worldComponents, MinReach: []string{"cross_host_cookie_refused"}},
+	"C18": {Engine: "world", QuickRuns: 1200, QuickSecs: 40, ThoroughS: 600, Components: worldComponents, MinReach: []string{"https_redirect"}},
+	"C19": {Engine: "world", QuickRuns: 1200, QuickSecs: 40, ThoroughS: 600, Components: worldComponents, MinReach: []string{"signed_out", "signout_revoke_failed"}},
+	"C20": {Engine: "world", QuickRuns: 1200, QuickSecs: 40, ThoroughS: 600, Components: worldComponents, MinReach: []string{"c20_twin_compared"}},
 }
